@@ -71,6 +71,13 @@ class SimSystemRandom(_random.Random):
         if step != 1:
             raise SimUnsupported('randrange step')
         hi = stop
+        if stop - start > (1 << 64):
+            # a Diffie-Hellman exponent is being drawn: the modular exponentiation that follows is the one computation of the tool
+            # whose cost the peer controls (through the size of the modulus).  Its CPU time is charged to the virtual clock as if a
+            # full-size exponent had been drawn, whatever the size of the exponent actually handed out: about 1.8e-6 us x bits^3
+            # (15 ms at 2048 bits, 1 s at 8192, 8 s at 16384 - measured for CPython's pow on this machine class)
+            bits = stop.bit_length() + 1
+            ACTIVE.k.now += int(1.8e-6 * bits * bits * bits)
         if r.exp_mode == 'small' and stop - start > (1 << 64):
             hi = start + (1 << 24)     # a legal (if unlikely) draw; keeps modular exponentiation cheap
         v = r.s.randrange(start, hi)
